@@ -29,7 +29,7 @@ BATCH = 2000
 
 
 def cases(rng, tier):
-	n = 8000 if tier == 'thorough' else 700
+	n = 8000 if tier == 'thorough' else 2500
 	for _ in range(n):
 		side = rng.choice(('server', 'server', 'client'))
 		recs = wire.gen_pipeline(rng, side)
